@@ -58,6 +58,7 @@ ListCalls ==
     \cup {[B EXCEPT !.op = op, !.l = l, !.y = y, !.x = x] : op \in {"linsnodebefore", "linsnodeafter"}, l \in LL, y \in LiveN, x \in LiveN}
     \cup {[B EXCEPT !.op = "lextend", !.l = l, !.vs = vs, !.k = k, !.f = Fr(Len(vs))] : l \in LL, vs \in ValSeqs, k \in {"", "boom"}}
     \cup {[B EXCEPT !.op = op, !.l = l, !.vs = vs, !.f = Fr(Len(vs))] : op \in {"lnew", "lsetstate"}, l \in LL, vs \in ValSeqs}
+    \cup {[B EXCEPT !.op = "lnew", !.l = l, !.vs = vs, !.k = "boom", !.f = Fr(Len(vs))] : l \in LL, vs \in ValSeqs}
     \cup {[B EXCEPT !.op = "lcopy", !.l = l, !.m = m, !.k = k, !.f = Fr(Len(ust.lst[l]))] : l \in LL, m \in LL, k \in Hows}
     \cup {[B EXCEPT !.op = "itopen", !.i = 1, !.k = k, !.l = l] : k \in ItKinds \cap {"ln", "lv", "lr"}, l \in LL}
     \cup {[B EXCEPT !.op = "itopen", !.i = 1, !.k = k, !.x = x] : k \in ItKinds \cap {"nn", "nns", "np", "nps"}, x \in LiveN}
@@ -65,9 +66,10 @@ ListCalls ==
 
 Item(n, s, k) == [n |-> n, s |-> s, k |-> k]
 Unhash    == Item(1, "C", "U")
-SetItems  == {Item(n, s, "I") : n \in 1..NNames, s \in Spells} \cup {Item(n, "L", "P") : n \in 1..NNames} \cup {Unhash}
+Flaky     == {Item(1, "B1", "U"), Item(1, "B2", "U")}       \* keys whose __hash__ raises at its first / second call
+SetItems  == {Item(n, s, "I") : n \in 1..NNames, s \in Spells} \cup {Item(n, "L", "P") : n \in 1..NNames} \cup {Unhash} \cup Flaky
 \* item sequences for the constructor / extend / __setstate__: one spelling per class, one plain lower-case str, the unhashable item
-SeqItems  == {Item(n, CHOOSE s \in Spells : TRUE, "I") : n \in 1..NNames} \cup {Item(1, "L", "P"), Unhash}
+SeqItems  == {Item(n, CHOOSE s \in Spells : TRUE, "I") : n \in 1..NNames} \cup {Item(1, "L", "P"), Unhash, Item(1, "B2", "U")}
 ItemSeqs  == UNION {[1..n -> SeqItems] : n \in 0..MaxSeq}
 SS        == 1..NSets
 SetCalls ==
@@ -75,6 +77,7 @@ SetCalls ==
     \cup {[B EXCEPT !.op = op, !.l = s, !.a = a] : op \in {"oadd", "oappend", "oremove", "ohas", "ofirst", "olast"}, s \in SS, a \in SetItems}
     \cup {[B EXCEPT !.op = op, !.l = s, !.a = a, !.b = b] : op \in {"obefore", "oafter"}, s \in SS, a \in SetItems, b \in SetItems}
     \cup {[B EXCEPT !.op = op, !.l = s, !.as = q] : op \in {"onew", "oextend", "osetstate"}, s \in SS, q \in ItemSeqs}
+    \cup {[B EXCEPT !.op = op, !.l = s, !.as = q, !.k = "boom"] : op \in {"onew", "oextend"}, s \in SS, q \in ItemSeqs}
     \cup {[B EXCEPT !.op = "ocopy", !.l = s, !.k = k] : s \in SS, k \in Hows}
 
 StrItems  == {Item(n, s, k) : n \in 1..NNames, s \in {"C", "L", "U"}, k \in {"I", "P"}}
